@@ -47,6 +47,34 @@ PairCases(tag) ==
   IN [i \in DOMAIN cells |-> [e |-> tag, text |-> PairText(PairFns[cells[i][1]], PairFns[cells[i][2]]),
                                doc |-> MkObj(<<JMem(<<97>>, PairArrs[cells[i][3]])>>)]]
 
+(* a call as the right-hand side of a projection or as a filter predicate: it is applied to EVERY element, null elements included *)
+ProjShapes == << <<<<97, cLBRACKET, cSTAR, cRBRACKET, cDOT>>, <<>>>>, <<<<97, cLBRACKET, cRBRACKET, cDOT>>, <<>>>>, <<<<97, cLBRACKET, cCOLON, cRBRACKET, cDOT>>, <<>>>>,
+                <<<<97, cLBRACKET, cQMARK>>, <<cRBRACKET>>>>, <<<<98, cDOT, cSTAR, cDOT>>, <<>>>>, <<<<97, cLBRACKET, cQMARK, cBANG>>, <<cRBRACKET>>>>,
+                <<<<109, 97, 112, cLPAREN, cAMP>>, <<cCOMMA, 97, cRPAREN>>>> >>
+ProjElems == <<JInt(3), JNull, JInt(-4), JStr(<<120>>), JArr(<<JInt(1)>>), JTrue>>
+ProjArrs == <<JArr(<<JInt(3), JNull, JInt(-4)>>), JArr(<<JNull, JNull>>), JArr(<<JNull>>), JArr(<<JStr(<<120>>), JNull>>), JArr(<<JNull, JArr(<<JInt(1)>>)>>),
+              JArr(<<JInt(3), JInt(-4)>>), JArr(<<>>), JArr(<<JNull, JInt(1), JNull, JStr(<<120>>)>>)>>
+ProjCalls == <<"abs", "length", "keys", "to_array", "type", "not_null", "to_string", "ceil", "reverse", "sum", "nosuch">>
+ProjCallText(g, nargs) == (IF g = "nosuch" THEN <<110, 111, 115, 117, 99, 104>> ELSE NameCps(g)) \o <<cLPAREN>>
+                          \o (CASE nargs = 0 -> <<>> [] nargs = 1 -> <<cAT>> [] nargs = 2 -> <<cAT, cCOMMA, cAT>>) \o <<cRPAREN>>
+ProjCallCases(zzdummy) ==
+  LET cells == SetToSeq({<<sh, g, n, x>> : sh \in DOMAIN ProjShapes, g \in DOMAIN ProjCalls, n \in 0..2, x \in DOMAIN ProjArrs})
+  IN [i \in DOMAIN cells |-> [e |-> "sig", text |-> ProjShapes[cells[i][1]][1] \o ProjCallText(ProjCalls[cells[i][2]], cells[i][3]) \o ProjShapes[cells[i][1]][2],
+                               doc |-> MkObj(<<JMem(<<97>>, ProjArrs[cells[i][4]]), JMem(<<98>>, MkObj(<<JMem(<<120>>, ProjArrs[cells[i][4]]), JMem(<<121>>, JNull)>>))>>)]]
+(* by-functions and map whose expression reference contains a call: it must fail for whichever element it fails on (first, later, last) *)
+ByCallFns == <<"sort_by", "max_by", "min_by", "map">>
+ByCallRefs == << <<cAMP>> \o NameCps("abs") \o <<cLPAREN, cAT, cRPAREN>>, <<cAMP>> \o NameCps("length") \o <<cLPAREN, cAT, cRPAREN>>,
+                 <<cAMP, 110, 111, 115, 117, 99, 104, cLPAREN, cAT, cRPAREN>>, <<cAMP>> \o NameCps("abs") \o <<cLPAREN, cRPAREN>>,
+                 <<cAMP>> \o NameCps("to_number") \o <<cLPAREN, cAT, cRPAREN>> >>
+ByCallElems == {JInt(-7), JInt(2), JStr(<<97, 98>>), JNull, JArr(<<JInt(1)>>)}
+ByCallCases(zzdummy) ==
+  LET arrs == SetToSeq({JArr(xs) : xs \in UNION {[1..n -> ByCallElems] : n \in 1..3}})
+      cells == SetToSeq({<<g, rf, x>> : g \in DOMAIN ByCallFns, rf \in DOMAIN ByCallRefs, x \in DOMAIN arrs})
+  IN [i \in DOMAIN cells |->
+        LET g == ByCallFns[cells[i][1]] rf == ByCallRefs[cells[i][2]] IN
+        [e |-> "sig", doc |-> MkObj(<<JMem(<<97>>, arrs[cells[i][3]])>>),
+         text |-> NameCps(g) \o <<cLPAREN>> \o (IF g = "map" THEN rf \o <<cCOMMA, 97>> ELSE <<97, cCOMMA>> \o rf) \o <<cRPAREN>>]]
+
 Unknown == <<110, 111, 115, 117, 99, 104>>          \* "nosuch"
 Arities(f) == 0..(IF Len(Sig(f).ps) + 2 > MAXAR THEN MAXAR ELSE Len(Sig(f).ps) + 2)
 SigCases(zzdummy) ==
@@ -65,7 +93,7 @@ SigCases(zzdummy) ==
      \o [i \in DOMAIN own |-> [e |-> "sig", text |-> CallText(NameCps(own[i].f), <<own[i].a>>, IOEnv.VIA), doc |-> DocOf(<<own[i].a>>, IOEnv.VIA), rt |-> "empty"]]
      \o [i \in DOMAIN own |-> [e |-> "sig", text |-> CallText(NameCps(own[i].f), <<own[i].a>>, IOEnv.VIA), doc |-> DocOf(<<own[i].a>>, IOEnv.VIA), rt |-> "fresh"]]
      \o [i \in DOMAIN FnNames |-> [e |-> "sig", text |-> CallText(NameCps(FnNames[i]), <<>>, IOEnv.VIA), doc |-> DocOf(<<>>, IOEnv.VIA), rt |-> "empty"]]
-     \o PairCases("sig")
+     \o PairCases("sig") \o ProjCallCases(0) \o ByCallCases(0)
      \o [i \in DOMAIN unk |-> Case("sig", Unknown, unk[i], IOEnv.VIA)]
      \o [x \in 1..(Len(byArrs) * 3) |-> Case("sig", NameCps(byFns[((x - 1) % 3) + 1]), <<byArrs[((x - 1) \div 3) + 1], JExpref(AIdentity)>>, IOEnv.VIA)]
      \o [x \in 1..Len(byArrs) |-> Case("sig", NameCps("map"), <<JExpref(AIdentity), byArrs[x]>>, IOEnv.VIA)]
@@ -110,7 +138,11 @@ VCase(f, args) == [e |-> "val", text |-> ValText(NameCps(f), args), doc |-> DocO
 
 ToNumStrs == {JStr(<<49>>), JStr(<<49, 46, 53>>), JStr(<<45, 50>>), JStr(<<32, 49>>), JStr(<<49, 32>>), JStr(<<97, 98, 99>>),
               JStr(<<34, 97, 34>>), JStr(<<91, 49, 93>>), JStr(<<116, 114, 117, 101>>), JStr(<<110, 117, 108, 108>>), JStr(<<>>),
-              JStr(<<48, 49>>), JStr(<<49, 46>>), JStr(<<46, 53>>), JStr(<<123, 125>>), JStr(<<45>>), JStr(<<48>>), JStr(<<45, 48>>)}
+              JStr(<<48, 49>>), JStr(<<49, 46>>), JStr(<<46, 53>>), JStr(<<123, 125>>), JStr(<<45>>), JStr(<<48>>), JStr(<<45, 48>>),
+              \* every optional part of the JSON number grammar: 1e2 1E2 1e+2 1e-2 -2.5E+3 1.5e1 +1 1e+ 1e 1.e2 12e+2 0e0 0.0 -0.5 1E+0
+              JStr(<<49, 101, 50>>), JStr(<<49, 69, 50>>), JStr(<<49, 101, 43, 50>>), JStr(<<49, 101, 45, 50>>), JStr(<<45, 50, 46, 53, 69, 43, 51>>),
+              JStr(<<49, 46, 53, 101, 49>>), JStr(<<43, 49>>), JStr(<<49, 101, 43>>), JStr(<<49, 101>>), JStr(<<49, 46, 101, 50>>), JStr(<<49, 50, 101, 43, 50>>),
+              JStr(<<48, 101, 48>>), JStr(<<48, 46, 48>>), JStr(<<45, 48, 46, 53>>), JStr(<<49, 69, 43, 48>>), JStr(<<49, 48, 48>>), JStr(<<49, 46, 50, 53>>)}
 AnyVals == Mixed \cup {JNum(3, 2), JInt(-1), JArr(<<JInt(1), JStr(<<97>>), JNull>>)}
 
 (* neighbouring doubles (JValue.tla): distinct numbers that the tolerant '==' identifies; ordering tells them apart *)
@@ -157,7 +189,20 @@ ValCells(zzdummy) ==
   \cup {<<f, <<x, ExprefK>>>> : f \in {"sort_by", "max_by", "min_by"}, x \in RecArrs \cup Families}
   \cup {<<"map", <<ExprefK, x>>>> : x \in RecArrs \cup {JArr(<<JInt(1), JNull, ObjA>>)}}
 
-ValCases(zzdummy) == LET cs == SetToSeq(ValCells(0)) IN [i \in DOMAIN cs |-> VCase(cs[i][1], cs[i][2])] \o PairCases("val")
+(* signed zeros: 0, -0, -0.0 and 0.0 are the same number (tied keys, stable order); documents as JSON text *)
+ZeroTexts == << <<48>>, <<45, 48, 46, 48>>, <<45, 48>>, <<48, 46, 48>>, <<45, 49>>, <<49>> >>
+ZeroRecs(ks) == <<cLBRACKET>> \o JoinWith([i \in DOMAIN ks |-> <<cLBRACE, 34, 107, 34, cCOLON>> \o ZeroTexts[ks[i]] \o <<cCOMMA, 34, 105, 34, cCOLON, 48 + i, cRBRACE>>], <<cCOMMA>>) \o <<cRBRACKET>>
+ZeroNums(ks) == <<cLBRACKET>> \o JoinWith([i \in DOMAIN ks |-> ZeroTexts[ks[i]]], <<cCOMMA>>) \o <<cRBRACKET>>
+ZeroCases(zzdummy) ==
+  LET seqs == SetToSeq(UNION {[1..n -> 1..6] : n \in 2..4})
+      byf == <<"sort_by", "max_by", "min_by">>
+      plain == <<"sort", "max", "min", "reverse">>
+      c1 == SetToSeq({<<g, q>> : g \in 1..3, q \in DOMAIN seqs})
+      c2 == SetToSeq({<<g, q>> : g \in 1..4, q \in DOMAIN seqs})
+  IN [i \in DOMAIN c1 |-> [e |-> "val", text |-> NameCps(byf[c1[i][1]]) \o <<cLPAREN, cAT, cCOMMA, cAMP, 107, cRPAREN>>, doctext |-> ZeroRecs(seqs[c1[i][2]])]]
+     \o [i \in DOMAIN c2 |-> [e |-> "val", text |-> NameCps(plain[c2[i][1]]) \o <<cLPAREN, cAT, cRPAREN>>, doctext |-> ZeroNums(seqs[c2[i][2]])]]
+
+ValCases(zzdummy) == LET cs == SetToSeq(ValCells(0)) IN [i \in DOMAIN cs |-> VCase(cs[i][1], cs[i][2])] \o PairCases("val") \o ZeroCases(0)
 
 Cases(zzdummy) == IF IOEnv.MODE = "sig" THEN SigCases(0) ELSE ValCases(0)
 ASSUME ndJsonSerialize(IOEnv.OUT, Cases(0))
